@@ -416,12 +416,14 @@ def tags_of(f):
     o, w = f["observed"], f["specification"]
     if t[0] == "A":
         tg = {"C09"}
-        if t[2] in "PRDC":
-            tg.add("C08")
-        if t[2] in "SR" and o.split(" | ")[0] != w.split(" | ")[0]:
-            tg.add("C04")
-        if t[2] == "R":
-            tg.add("C04")
+        op, wp = o.split(" | "), w.split(" | ")
+        state_differs = len(op) != 2 or len(wp) != 2 or op[1] != wp[1]
+        calls_differ = op[0].split(" ")[1:] != wp[0].split(" ")[1:]
+        ok_differs = op[0].startswith("ok") != wp[0].startswith("ok")
+        if t[2] in "PRDC" and (state_differs or calls_differ or ok_differs):
+            tg.add("C08")      # the call did not take the effect on firing it should have (a wrong error class alone is C09's)
+        if t[2] in "SR" and (state_differs or calls_differ):
+            tg.add("C04")      # initial / resumed fire time
         return tg
     if t[0] == "X":
         return {"C03", "C09"}
